@@ -1,0 +1,180 @@
+//go:build verif
+
+package calendar
+
+// Contracts for the fortune chain (property C12), read by /verif/engine (govc). Comment-only.
+
+//@ # ================================================================ C12: fortune periods
+
+//@ # position in the sixty-cycle of the pair (stem g, branch z) of equal parity
+//@ spec func cyc(g int, z int) int
+//@   = modf(36*g+25*z, 60)
+//@ lemma jiaZiOfPair(g int, z int) [C12]
+//@   requires 0 <= g && g <= 9 && 0 <= z && z <= 11 && modf(g, 2) == modf(z, 2)
+//@   ensures LunarUtil.GetJiaZiIndex(LunarUtil.GAN[g+1]+LunarUtil.ZHI[z+1]) == cyc(g, z) && modf(cyc(g, z), 10) == g && modf(cyc(g, z), 12) == z
+//@   split g in 0..9
+
+//@ lemma cycOfNumber(n int) [C12]
+//@   requires -10 <= n && n <= 20000
+//@   ensures cyc(modf(n, 10), modf(n, 12)) == modf(n, 60)
+//@   split modf(n, 60) in 0..59
+
+//@ spec func yunOK(y *Yun) bool
+//@   = y.lunar != nil && 0 <= y.startYear && y.startYear <= 10 && 0 <= y.startMonth && y.startMonth <= 11 && 0 <= y.startDay && y.startDay <= 29 &&
+//@     0 <= y.startHour && y.startHour <= 23 && y.lunar.solar.year <= 9900
+
+//@ # direction: forward exactly for yang-year males and yin-year females (year stem by the exact Lichun instant)
+//@ func NewYun(eightChar *EightChar, gender int, sect int) *Yun [C12]
+//@   requires eightChar.lunar != nil && 2 <= eightChar.lunar.solar.year && eightChar.lunar.solar.year <= 9900
+//@   ensures result.gender == gender && sameSolar(result.lunar.solar, eightChar.lunar.solar)
+//@   ensures 0 <= result.startYear && 0 <= result.startMonth && result.startMonth <= 11 && 0 <= result.startDay && result.startDay <= 29 && 0 <= result.startHour && result.startHour <= 23
+//@   ensures result.forward == ((modf(eightChar.lunar.yearGanIndexExact, 2) == 0) == (gender == 1))
+
+//@ # start offset: the distance from the birth moment to the next Jie (forward) or from the previous Jie (backward),
+//@ # converted at three days per year. School 2: 4320 minutes = one year, 360 = one month, 12 = one day, 1 = two hours.
+//@ # School 1: one day = four months, one two-hour slot = ten days (23:00 counts as the last slot of its day).
+//@ spec func slotOf(s *Solar) int
+//@   = ite(s.hour == 23, 11, divf(s.hour+1, 2))
+//@ spec func nextJieOf(l *Lunar, e *Solar) bool
+//@   = instBefore(l.solar, e) && exists(0, 15, func(t int) bool { return ikey(e) == ikey(jqs(l, 2*t)) }) &&
+//@     all(0, 15, func(t int) bool { return implies(instBefore(l.solar, jqs(l, 2*t)), !instBefore(jqs(l, 2*t), e)) })
+//@ spec func prevJieOf(l *Lunar, s *Solar) bool
+//@   = !instBefore(l.solar, s) && exists(0, 15, func(t int) bool { return ikey(s) == ikey(jqs(l, 2*t)) }) &&
+//@     all(0, 15, func(t int) bool { return implies(!instBefore(l.solar, jqs(l, 2*t)), !instBefore(s, jqs(l, 2*t))) })
+//@ func (yun *Yun) computeStart(sect int) [C12]
+//@   requires yun.lunar != nil && 2 <= yun.lunar.solar.year && yun.lunar.solar.year <= 9900
+//@   modifies yun.startYear yun.startMonth yun.startDay yun.startHour
+//@   cut start#2: start != nil && inYears(start.year) && implies(yun.forward, sameSolar(start, yun.lunar.solar)) && implies(!yun.forward, prevJieOf(yun.lunar, start))
+//@   cut end#2: end != nil && inYears(end.year) && implies(!yun.forward, sameSolar(end, yun.lunar.solar)) && implies(yun.forward, nextJieOf(yun.lunar, end))
+//@   ghost S *Solar = start @ hour#1
+//@   ghost E *Solar = end @ hour#1
+//@   ghost M int = end.SubtractMinute(start) @ hour#1
+//@   use solarOrder(start, end) @ hour#1
+//@   use solarOrder(yun.lunar.solar, end) @ hour#1
+//@   use solarOrder(start, yun.lunar.solar) @ hour#1
+//@   hint hour#1: tsec(S) <= tsec(E) && M >= 0
+//@   ensures implies(yun.forward, sameSolar(S, yun.lunar.solar) && nextJieOf(yun.lunar, E))
+//@   ensures implies(!yun.forward, sameSolar(E, yun.lunar.solar) && prevJieOf(yun.lunar, S))
+//@   ensures 0 <= yun.startYear && 0 <= yun.startMonth && yun.startMonth <= 11 && 0 <= yun.startDay && yun.startDay <= 29 && 0 <= yun.startHour && yun.startHour <= 23
+//@   ensures implies(sect == 2, M == (sjdn(E)-sjdn(S))*1440+(E.hour*60+E.minute)-(S.hour*60+S.minute) &&
+//@             yun.startYear*4320+yun.startMonth*360+yun.startDay*12+divf(yun.startHour, 2) == M && modf(yun.startHour, 2) == 0)
+//@   ensures implies(sect != 2, yun.startHour == 0 &&
+//@             (yun.startYear*12+yun.startMonth)*30+yun.startDay == (sjdn(E)-sjdn(S)-ite(slotOf(E) < slotOf(S), 1, 0))*120+modf(slotOf(E)-slotOf(S), 12)*10)
+
+//@ # the civil year of the start-of-fortune moment is named by an uninterpreted function of the birth moment and the
+//@ # start offset, so that every period built from one Yun refers to the same year
+//@ uninterp spec func startYearOf(j int, sec int, sy int, sm int, sd int, sh int) int
+//@   = startYearImpl(j, sec, sy, sm, sd, sh)
+//@ gocode
+//@   func startYearImpl(j int, sec int, sy int, sm int, sd int, sh int) int {
+//@   	d := NewSolarFromJulianDay(float64(j))
+//@   	s := NewSolar(d.GetYear(), d.GetMonth(), d.GetDay(), sec/3600, sec/60%60, sec%60)
+//@   	return s.NextYear(sy).NextMonth(sm).NextDay(sd).NextHour(sh).GetYear()
+//@   }
+//@ spec func startYearOfYun(y *Yun) int
+//@   = startYearOf(sjdn(y.lunar.solar), ssec(y.lunar.solar), y.startYear, y.startMonth, y.startDay, y.startHour)
+
+//@ func (yun *Yun) GetStartSolar() *Solar [C12]
+//@   requires yunOK(yun)
+//@   defines startYearOf(sjdn(yun.lunar.solar), ssec(yun.lunar.solar), yun.startYear, yun.startMonth, yun.startDay, yun.startHour) == result.year
+//@   ensures inYears(result.year) && result.year >= yun.lunar.solar.year
+//@   hint solar#2: solar.year >= yun.lunar.solar.year && inYears(solar.year)
+//@   hint solar#3: solar.year >= yun.lunar.solar.year && inYears(solar.year)
+//@   use yOfMono(sjdn(solar), sjdn(solar)+yun.startDay) @ solar#3
+//@   hint solar#4: solar.year >= yun.lunar.solar.year && inYears(solar.year)
+//@   ghost e *Solar = solar.NextHour(yun.startHour) @ solar#4
+//@   use yOfMono(sjdn(solar), sjdn(e)) @ solar#4
+
+//@ # Great-fortune periods: ages and years line up with the birth year
+//@ type DaYun established_by NewDaYun
+//@   invariant self.lunar != nil && self.yun != nil && self.index >= 0 && -1 <= self.startYear && self.startYear <= 12000 && -1 <= self.endYear && self.endYear <= 12000 &&
+//@             self.startAge == self.startYear-self.lunar.solar.year+1 && self.endAge == self.endYear-self.lunar.solar.year+1 &&
+//@             implies(self.index >= 1, self.endYear == self.startYear+9) && implies(self.index < 1, self.startYear == self.lunar.solar.year) && self.startYear >= self.lunar.solar.year
+
+//@ func NewDaYun(yun *Yun, index int) *DaYun [C12]
+//@   requires yunOK(yun) && 0 <= index && index <= 100
+//@   ensures result.index == index && sameSolar(result.lunar.solar, yun.lunar.solar) && result.yun.forward == yun.forward
+//@   ensures result.startYear == ite(index < 1, yun.lunar.solar.year, startYearOfYun(yun)+(index-1)*10)
+//@   ensures result.endYear == ite(index < 1, startYearOfYun(yun)-1, startYearOfYun(yun)+(index-1)*10+9)
+
+//@ # consecutive ten-year spans: period i+1 starts the year (and the age) after period i ends; the first period starts
+//@ # at birth with age 1
+//@ ghost func daYunChain(yun *Yun, i int) [C12]
+//@   requires yunOK(yun) && 0 <= i && i <= 99
+//@   body
+//@     a := NewDaYun(yun, i)
+//@     b := NewDaYun(yun, i+1)
+//@     assert(b.startYear == a.endYear+1 && b.startAge == a.endAge+1)
+//@     assert(b.endYear == b.startYear+9 && b.endAge == b.startAge+9)
+//@     assert(implies(i == 0, a.startYear == yun.lunar.solar.year && a.startAge == 1))
+//@     assert(a.startAge == a.startYear-yun.lunar.solar.year+1 && a.endAge == a.endYear-yun.lunar.solar.year+1)
+
+//@ # the period's pillar steps one by one from the month pillar (by the exact Jie instant) in the fortune direction
+//@ # (the month pillar is a valid stem-branch pair: C05)
+//@ func (daYun *DaYun) GetGanZhi() string [C12]
+//@   requires daYun.index <= 60 && modf(daYun.lunar.monthGanIndexExact, 2) == modf(daYun.lunar.monthZhiIndexExact, 2)
+//@   ensures implies(daYun.index < 1, result == "")
+//@   ensures implies(daYun.index >= 1, result == LunarUtil.JIA_ZI[modf(cyc(daYun.lunar.monthGanIndexExact, daYun.lunar.monthZhiIndexExact)+ite(daYun.yun.forward, daYun.index, 0-daYun.index), 60)])
+//@   use jiaZiOfPair(daYun.lunar.monthGanIndexExact, daYun.lunar.monthZhiIndexExact)
+//@   cut offset#1: offset == cyc(daYun.lunar.monthGanIndexExact, daYun.lunar.monthZhiIndexExact)
+//@   cut offset#4: offset == modf(cyc(daYun.lunar.monthGanIndexExact, daYun.lunar.monthZhiIndexExact)+ite(daYun.yun.forward, daYun.index, 0-daYun.index), 60)
+
+//@ # annual fortunes: year and age count up from the period's start, and the pillar is the pillar of that calendar year
+//@ type LiuNian established_by NewLiuNian
+//@   invariant self.lunar != nil && self.daYun != nil && self.index >= 0 && self.year == self.daYun.startYear+self.index && self.age == self.daYun.startAge+self.index &&
+//@             sameSolar(self.lunar.solar, self.daYun.lunar.solar)
+
+//@ func NewLiuNian(daYun *DaYun, index int) *LiuNian [C12]
+//@   requires 0 <= index && index <= 100 && daYun.lunar.solar.year <= 9999
+//@   ensures result.index == index && result.year == daYun.startYear+index && result.age == daYun.startAge+index
+
+//@ # outside the two December spans of the first reform era (civil years 15 and 18) the lunar year number of a day
+//@ # is not ahead of its civil year
+//@ lemma notAhead(l *Lunar) [C12]
+//@   reveal mYat mFat
+//@   requires l != nil && l.solar.year != 15 && l.solar.year != 18
+//@   ensures l.year <= l.solar.year
+//@   use lunarYearNotAhead(l.solar.year)
+//@   use midxRange(l.solar.year, sjdn(l.solar))
+//@   use jdnMono(l.solar.year, l.solar.month, l.solar.day, l.solar.year, 12, 31)
+//@   use jdnMono(l.solar.year, 12, 31, l.solar.year, l.solar.month, l.solar.day)
+//@   split midx(l.solar.year, sjdn(l.solar)) in 0..14
+
+//@ func (liuNian *LiuNian) GetGanZhi() string [C12]
+//@   requires liuNian.index <= 100 && liuNian.daYun.index <= 100 && 2 <= liuNian.lunar.solar.year && liuNian.lunar.solar.year <= 9900 && liuNian.lunar.solar.year != 15 && liuNian.lunar.solar.year != 18
+//@   ensures result == LunarUtil.JIA_ZI[modf(liuNian.year-4, 60)]
+//@   ensures liuNian.age == liuNian.year-liuNian.lunar.solar.year+1
+//@   use cycOfNumber(liuNian.lunar.solar.year-4)
+//@   ghost r *Lunar = jieQi["立春"].GetLunar() @ jieQi#1
+//@   use solarOrder(r.solar, jqs(r, 4)) @ jieQi#1
+//@   use notAhead(r) @ jieQi#1
+//@   hint jieQi#1: r.solar.year == liuNian.lunar.solar.year && r.yearGanIndexExact == modf(liuNian.lunar.solar.year-4, 10) && r.yearZhiIndexExact == modf(liuNian.lunar.solar.year-4, 12)
+//@   use jiaZiOfPair(r.yearGanIndexExact, r.yearZhiIndexExact) @ jieQi#1
+//@   cut offset#1: offset == modf(liuNian.lunar.solar.year-4, 60)+liuNian.index
+//@   cut offset#2: offset == modf(liuNian.lunar.solar.year-4, 60)+liuNian.year-liuNian.lunar.solar.year
+//@   cut offset#3: offset == modf(liuNian.year-4, 60)
+
+//@ # minor fortunes step from the hour pillar by age, in the fortune direction
+//@ type XiaoYun established_by NewXiaoYun
+//@   invariant self.lunar != nil && self.daYun != nil && self.index >= 0 && self.year == self.daYun.startYear+self.index && self.age == self.daYun.startAge+self.index &&
+//@             sameSolar(self.lunar.solar, self.daYun.lunar.solar)
+
+//@ func NewXiaoYun(daYun *DaYun, index int, forward bool) *XiaoYun [C12]
+//@   requires 0 <= index && index <= 100 && daYun.lunar.solar.year <= 9999
+//@   ensures result.index == index && result.year == daYun.startYear+index && result.age == daYun.startAge+index && result.forward == forward
+
+//@ func (xiaoYun *XiaoYun) GetGanZhi() string [C12]
+//@   requires xiaoYun.index <= 100 && xiaoYun.daYun.index <= 100 && xiaoYun.lunar.solar.year <= 9999 && modf(xiaoYun.lunar.timeGanIndex, 2) == modf(xiaoYun.lunar.timeZhiIndex, 2)
+//@   ensures result == LunarUtil.JIA_ZI[modf(cyc(xiaoYun.lunar.timeGanIndex, xiaoYun.lunar.timeZhiIndex)+ite(xiaoYun.forward, xiaoYun.age, 0-xiaoYun.age), 60)]
+//@   use jiaZiOfPair(xiaoYun.lunar.timeGanIndex, xiaoYun.lunar.timeZhiIndex)
+//@   cut offset#1: offset == cyc(xiaoYun.lunar.timeGanIndex, xiaoYun.lunar.timeZhiIndex)
+//@   hint add#2: add == xiaoYun.age
+//@   loop 1 invariant modf(offset, 60) == modf(cyc(xiaoYun.lunar.timeGanIndex, xiaoYun.lunar.timeZhiIndex)+ite(xiaoYun.forward, xiaoYun.age, 0-xiaoYun.age), 60) && offset >= -20000
+//@   loop 1 decreases 0 - offset
+
+//@ # monthly fortunes: branch from the yin month, stem by the five-tigers rule from the stem of the annual fortune's year
+//@ func (liuYue *LiuYue) GetGanZhi() string [C12]
+//@   requires liuYue.liuNian != nil && 0 <= liuYue.index && liuYue.index <= 11
+//@   requires liuYue.liuNian.index <= 100 && liuYue.liuNian.daYun.index <= 100 && 2 <= liuYue.liuNian.lunar.solar.year && liuYue.liuNian.lunar.solar.year <= 9900 && liuYue.liuNian.lunar.solar.year != 15 && liuYue.liuNian.lunar.solar.year != 18
+//@   ensures result == LunarUtil.GAN[modf(liuYue.index+2*modf(liuYue.liuNian.year-4, 10)+2, 10)+1]+LunarUtil.ZHI[modf(liuYue.index+2, 12)+1]
+//@   split modf(liuYue.liuNian.year-4, 60) in 0..59
